@@ -73,6 +73,18 @@ def gen(tier, rng):
                     c = add(api="deflate", inp=data, level=level, wrap=wrap, lbuf=3, dictmode=1, dct=dct[-32768:], calls=calls, meta={"family": "dict-tail", "cpu": "host", "dl": dl})
                     pairs.append(("long-dictionary-vs-its-32K-tail|level %d dict_len %d" % (level, dl), a, c))
             k += 1
+    # (b2) dictionary together with a small window: only what lies within 2^w of the current position may be referenced (dictionary bytes included)
+    for w in (9, 12) if tier == "quick" else (9, 10, 11, 12, 13, 14):
+        for dl in (100, 4000, 40000):
+            dct = igz.corpus(rng, "text", dl)
+            tail = dct[-min(len(dct), 1500):]
+            data = tail[len(tail) // 3:] + igz.corpus(rng, "lowent", 700) + tail[:len(tail) // 2] + dct[-40:] * 3 + dct[:200]
+            for level in range(4):
+                for mode in (1, 2):
+                    if tier == "quick" and (level + mode + dl // 100) % 2: continue
+                    add(api="deflate", inp=data, level=level, wrap=[0, 3][(w + level) % 2], hist_bits=w, lbuf=3, dictmode=mode, dct=dct, mem=level % 3,
+                        calls=[[[len(data), 300][(level + mode) % 2], 1 << 16, [0, 1, 2][(w + level) % 3], 1]] * (len(data) // 300 + 2),
+                        meta={"family": "dict-small-window", "cpu": CPUS[(w + level + mode) % len(CPUS)], "dl": dl, "w": w})
     # (c) dictionary calls in a wrong state must be refused; the stream must come out as if they had not been made
     for level in range(4):
         data = igz.corpus(rng, "text", 3000); dct = igz.corpus(rng, "text", 500)
